@@ -489,6 +489,42 @@ func init() {
 	replays["filter"] = replayFilter
 }
 
+// apalacheProve runs one Apalache obligation under a time limit and records the outcome: "NoError",
+// "violation" (expected for a control obligation) or "undecided" (time limit: the machine may be busy; an
+// unbounded proof that does not finish is not a verdict and never makes a check fail).
+func apalacheProve(c *Ctx, module, what string, limit time.Duration, expectViolation bool, args ...string) string {
+	dir, _ := os.MkdirTemp(c.Scratch, "apa-")
+	defer os.RemoveAll(dir)
+	spec, err := os.ReadFile(filepath.Join(tlcrun.SpecDir, module+".tla"))
+	if err != nil {
+		Infra("%v", err)
+	}
+	os.WriteFile(filepath.Join(dir, module+".tla"), spec, 0o644)
+	t0 := time.Now()
+	full := append([]string{fmt.Sprint(int(limit.Seconds())), "apalache-mc", "check"}, args...)
+	full = append(full, module+".tla")
+	cmd := exec.Command("timeout", full...)
+	cmd.Dir = dir
+	out, _ := cmd.CombinedOutput()
+	outcome := "undecided"
+	switch {
+	case strings.Contains(string(out), "The outcome is: NoError"):
+		outcome = "NoError"
+	case strings.Contains(string(out), "The outcome is: Error") && strings.Contains(string(out), "violat"):
+		outcome = "violation"
+	}
+	c.mu.Lock()
+	list, _ := c.Ev.Extra["apalache"].([]interface{})
+	c.Ev.Extra["apalache"] = append(list, map[string]interface{}{"module": module, "obligation": what, "control_expected_to_be_refuted": expectViolation,
+		"cmd": "apalache-mc check " + strings.Join(args, " ") + " " + module + ".tla", "outcome": outcome, "wall_s": time.Since(t0).Seconds()})
+	c.mu.Unlock()
+	c.Note("Apalache %s %s: %s (%.1fs)", module, what, outcome, time.Since(t0).Seconds())
+	if (outcome == "violation") != expectViolation && outcome != "undecided" {
+		Infra("Apalache %s (%s): outcome %s\n%s", module, what, outcome, tail(string(out), 25))
+	}
+	return outcome
+}
+
 // apalacheCheck runs one Apalache obligation on a copy of a specification module.
 func apalacheCheck(c *Ctx, module, what string, args ...string) {
 	dir, _ := os.MkdirTemp(c.Scratch, "apa-")
